@@ -135,6 +135,99 @@ def supported(item, entry):
     return ok, why
 
 
+# ------------------------------------------------------------------------- cross-instance state
+def fresh_outputs(item):
+    """what a freshly constructed creator returns, for every entry method and dialect"""
+    out = {}
+    for entry in G.ENTRY[item["kind"]]:
+        for d in G.DIALECTS:
+            try:
+                out[f"{entry}:{d}"] = jsonable(call(item["make"](), entry, d))
+            except Exception as e:
+                out[f"{entry}:{d}"] = "ERR:" + type(e).__name__
+    return out
+
+
+def ukey(item):
+    return f"{item['kind']}:{item['label']}"       # labels repeat across kinds (And / Or / Not)
+
+
+def record_all(grid, order=None):
+    res = {}
+    for i in (order if order is not None else range(len(grid))):
+        res[ukey(grid[i])] = fresh_outputs(grid[i])
+    return res
+
+
+def isolated_outputs(labels):
+    """run in a fresh interpreter: construct the creators `labels` in this order and nothing else; the
+    outputs of the last one"""
+    import logging
+    import warnings
+    warnings.filterwarnings("ignore")
+    logging.getLogger("splink").setLevel(logging.ERROR)
+    grid = {ukey(it): it for it in G.grid()}
+    res = None
+    for lb in labels:
+        res = fresh_outputs(grid[lb])
+    return labels[-1], res
+
+
+def isolated_many(label_lists, workers=12):
+    import multiprocessing as mp
+    ctxm = mp.get_context("spawn")
+    with ctxm.Pool(processes=workers, maxtasksperchild=1) as pool:
+        return pool.map(isolated_outputs, label_lists, chunksize=1)
+
+
+def first_difference(a, b):
+    for k in sorted(a):
+        if a[k] != b.get(k):
+            return k, a[k], b.get(k)
+    return None
+
+
+def cross_instance_checks(ctx, grid, start, start_shuffled, end, report):
+    """fresh creators must give the same results whatever was constructed or called before them in the
+    process: first construction (grid order) vs shuffled order vs end of run vs a fresh interpreter"""
+    bylabel = {ukey(it): it for it in grid}
+    for name, other in (("a second pass in shuffled order", start_shuffled), ("the end of the run", end)):
+        for lb, o in other.items():
+            ctx.count_case(("cross-instance", name, lb), True, None)
+            if o != start[lb]:
+                k, x, y = first_difference(start[lb], o)
+                report(bylabel[lb]["cls"].__name__, "<cross-instance state>",
+                       f"a freshly constructed {lb} gives a different {k} at {name} than at its first construction",
+                       {"case": {"creator": lb, "when": name, "call": k}, "implementation": y, "specification": x},
+                       {"cross_instance": True})
+    labels = [ukey(it) for it in grid]
+    if ctx.quick:
+        labels = [ukey(it) for i, it in enumerate(grid) if it["kind"] != "level" or i % 3 == 0]
+    t0 = time.time()
+    iso = dict(isolated_many([[lb] for lb in labels]))
+    ctx.cov["isolated_subprocess_constructions"] = len(iso)
+    for lb, o in iso.items():
+        ctx.count_case(("cross-instance", "fresh interpreter", lb), True, None)
+        if o == start[lb]:
+            continue
+        k, x, y = first_difference(o, start[lb])
+        # which earlier creator of the same class contaminates it?
+        cls = bylabel[lb]["cls"]
+        earlier = [ukey(it) for it in grid if it["cls"] is cls and ukey(it) != lb]
+        culprit = None
+        if earlier:
+            for (last, o2), e in zip(isolated_many([[e, lb] for e in earlier]), earlier):
+                if o2 != o:
+                    culprit = e
+                    break
+        report(cls.__name__, "<cross-instance state>",
+               f"{lb} constructed in this process gives a different {k} than constructed alone in a fresh interpreter"
+               + (f" (constructing {culprit} first is enough)" if culprit else ""),
+               {"case": {"creator": lb, "constructed_before": culprit or "the grid items before it", "call": k},
+                "implementation": y, "specification": x}, {"cross_instance": True})
+    ctx.cov["isolated_wall_s"] = round(time.time() - t0, 1)
+
+
 def sequences(ctx, dialects):
     seqs = []
     if not dialects:
@@ -180,7 +273,7 @@ Notation length := List.length.
 """
 
 
-def correspondence(ctx: Ctx, grid, allp, only=None):
+def correspondence(ctx: Ctx, grid, allp, only=None, baseline=None):
     import sqlglot
     from splink.internals.dialects import SplinkDialect
     progs = {p["name"]: p for p in allp}
@@ -300,6 +393,8 @@ def correspondence(ctx: Ctx, grid, allp, only=None):
                 report(cls, "<returned dict aliases the creator>",
                        f"{item['label']}: mutating the dict returned by create_settings_dict changes the next result",
                        {"case": {"creator": item["label"]}, "implementation": d2, "specification": ref}, {"dict_isolation": True})
+    if baseline is not None and only is None:
+        cross_instance_checks(ctx, grid, baseline[0], baseline[1], record_all(grid), report)
     ctx.cov["sql_snippets_parsed"] = nparse
     ctx.cov["sql_snippets_unparsable"] = nparse_bad
     ctx.cov["unsupported_dialect_reasons"] = unsupported
